@@ -81,10 +81,10 @@ def gen_scenario(prop: str, idx: int) -> dict:
              st=T0 + HORIZON // 2, en=T0 + HORIZON // 2 + 1000,
              name=anchor_name, app="app")]))
     kinds = {
-        "C09": ["ok"] * 6 + ["outside", "dangling"],
+        "C09": ["ok"] * 6 + ["outside", "dangling", "straddle", "edge"],
         "C10": ["ok"],
         "C11": ["ok", "ok", "dangling", "outside", "straddle", "badname",
-                "dangling-root"],
+                "dangling-root", "edge"],
         "C12": ["ok"] * 5 + ["badname", "dangling"],
     }[focus]
     n_traces = rng.randint(1, 9 if focus in ("C09", "C12") else 7)
@@ -109,6 +109,10 @@ def gen_scenario(prop: str, idx: int) -> dict:
             else:
                 base = T0 + HORIZON - buf * MIN - 500
             span_len = 2000
+        elif kind == "edge":
+            # exactly one timestamp of the trace lies exactly on a window
+            # edge (the window is closed: docs/user/Config.md)
+            base = T0  # fixed up below
         else:
             base = T0 + buf * MIN + rng.randint(
                 1, HORIZON - 2 * buf * MIN - 10**6)
@@ -131,6 +135,24 @@ def gen_scenario(prop: str, idx: int) -> dict:
                 emit(kd, sid, st + 1 + j)
 
         emit(shape, None, base)
+        if kind == "edge":
+            lo_w, hi_w = T0 + buf * MIN, T0 + HORIZON - buf * MIN
+            if rng.random() < 0.5:
+                # everything ends at the lower edge at the latest
+                for d in sp:
+                    d["en"] = lo_w - (0 if d is sp[0] else 1 + len(sp))
+                    d["st"] = max(T0, d["en"] - 10)
+                if buf == 0:
+                    sp[0]["st"] = sp[0]["en"] = lo_w
+                    for d in sp[1:]:
+                        d["st"] = d["en"] = lo_w
+            else:
+                for d in sp:
+                    d["st"] = hi_w + (0 if d is sp[0] else 1)
+                    d["en"] = min(T0 + HORIZON, d["st"] + 10)
+                if buf == 0:
+                    for d in sp:
+                        d["st"] = d["en"] = hi_w
         if kind == "outside":
             hi = base + span_len
             for d in sp:
